@@ -78,6 +78,9 @@ func vVarsFor(op *ast.OperationDefinition, given map[string]interface{}) map[str
 			vars[vd.Variable] = v
 		} else if vd.DefaultValue != nil {
 			dv, _ := vd.DefaultValue.Value(nil)
+			if vd.DefaultValue.Kind == ast.ListValue && len(vd.DefaultValue.Children) == 0 {
+				dv = []interface{}{} // an empty list is a value of its own, not null
+			}
 			vars[vd.Variable] = dv
 		}
 	}
